@@ -55,6 +55,9 @@ def app(environ, start_response):
         status = q.get("status", ["200"])[0]
         cl = q.get("cl", ["none"])[0]
         off = int(q.get("off", ["0"])[0])
+        delay = float(q.get("d", ["0"])[0])
+        rep = int(q.get("rep", ["1"])[0])
+        sizes = sizes * rep
         chunks, k = [], 0
         for n in sizes:
             chunks.append(bytes((0x30 + (k + j) % 75) for j in range(n)))
@@ -78,6 +81,12 @@ def app(environ, start_response):
                 f = io.BytesIO(data)
             f.seek(off)
             return environ["wsgi.file_wrapper"](f)
+        if delay:
+            def slow():
+                for c in chunks:
+                    time.sleep(delay)
+                    yield c
+            return slow()
         return chunks
     elif path == "/echo":
         n = len(environ["wsgi.input"].read())
